@@ -193,6 +193,9 @@ class World:
         self.stats = {}
         self.chain = snap.Chain()
         self.stopped = None  # reason why the history stopped being interpreted (Unspec)
+        self.handles = {}    # id -> view handle kept alive across operations (see resolve_view)
+        self.epoch = 0       # bumped by structural edits / restarts: older handles are stale (outside every statement)
+        self.io_epoch = 0    # bumped by every change of recordings / inputs
 
     def bump(self, key, k=1):
         self.stats[key] = self.stats.get(key, 0) + k
@@ -207,10 +210,21 @@ class World:
         ref = self.ref if ref is None else ref
         rv = ref.root()
         calls = []
+        start = None
+        if vspec and vspec[0][0] == "handle":
+            # a view object created by an earlier operation and kept in a variable by the session
+            h = getattr(self, "handles", {}).get(vspec[0][1])
+            if h is None or h["epoch"] != getattr(self, "epoch", 0):
+                raise Unspec("stale or unknown view handle")
+            from .refmodule import RV
+
+            rv = RV(ref, h["N"], h["E"], h["scope"], h["nctrl"], h["ectrl"], h["kind"], h["syn_local"])
+            start = h
+            vspec = vspec[1:]
 
         def make_thunk(calls):
             def thunk():
-                v = m
+                v = m if start is None else start["view"]
                 for name, arg in calls:
                     if name in ("cell", "branch", "comp", "edge", "loc", "scope"):
                         v = getattr(v, name)(arg)
